@@ -158,11 +158,14 @@ def py_repro(job):
     return "; ".join(lines)
 
 
-def report(run, stream, jobs, outs, res, do_shrink=True):
-    v1 = sorted([i for i, (c, st) in res.items() if c == 1], key=lambda i: (res[i][1], len(json.dumps(jobs[i]["ops"]))))
+def report(run, stream, jobs, outs, res, do_shrink=True, limit=2, keep_order=False):
+    v1 = sorted([i for i, (c, st) in res.items() if c == 1],
+                key=(lambda i: i) if keep_order else (lambda i: (res[i][1], len(json.dumps(jobs[i]["ops"])))))
     v2 = sorted([i for i, (c, st) in res.items() if c == 2], key=lambda i: (res[i][1], len(json.dumps(jobs[i]["ops"]))))
     seen = set()
     for i in v1[:40]:
+        if len(seen) >= limit:
+            break
         st = res[i][1]
         job = dict(jobs[i], ops=jobs[i]["ops"][:st + 1]) if st < len(jobs[i]["ops"]) else jobs[i]
         if do_shrink and len(job["ops"]) > 1:
@@ -174,8 +177,6 @@ def report(run, stream, jobs, outs, res, do_shrink=True):
         if key in seen:
             continue
         seen.add(key)
-        if len(seen) > 2:
-            break
         what = "final exported package disagrees with the namespace" if st >= len(jobs[i]["ops"]) else \
             "after its last operation the container is not the coherent map the edits denote (or acceptance is wrong)"
         run.violation(key, f"{job['ctr']} history {json.dumps(job['ops'])}: {what}",
@@ -201,7 +202,8 @@ def corpus():
     S, P, I, A, G, B = (["sig", None], ["port", None], ["inst", None], ["arr", None], ["ibun", None], ["bun", None])
     nm = ["a", "b"]
     mods = [
-        [["set", "a", S], ["set", "a", I]],                        # DESIGN 7 #29: x stays in signals, both exported
+        [["set", "a", S], ["set", "a", I]],                        # DESIGN 7 #29: x stays in signals, both exported (fix C18-1)
+        [["add", ["sig", "ports"], None]],                         # reserved name through add() (fix C18-2)
         [["set", "a", S], ["set", "a", P]],                        # signal -> port: listed in both
         [["set", "a", P], ["set", "a", S]],
         [["set", "a", A], ["set", "a", I]],
@@ -210,7 +212,6 @@ def corpus():
         [["add", ["inst", "a"], None], ["add", ["sig", None], "a"]],
         [["set", "a", S], ["set", "b", I], ["set", "a", I], ["set", "b", S]],   # order after a swap of kinds
         [["set", "a", S], ["set", "a", S]],                        # same kind: plain overwrite
-        [["add", ["sig", "ports"], None]],                         # reserved name through add()
         [["add", ["sig", None], "name"]],
         [["set", "bundle_ports", S]],
         [["set", "name", S]],                                      # an HDL object as the Module's name
@@ -230,13 +231,14 @@ def corpus():
         [["add", ["sig", None], "roles"]],
         [["add", ["sig", None], "name"]],
         [["set", "name", S]],
-        [["set", "a", S], ["del", "signals"]],                     # Bundle had no __delattr__
         [["set", "a", S], ["del", "a"], ["del", "name"]],
         [["set", "a", I], ["set", "a", ["int", None]], ["set", "roles", S]],
     ]
     allm = nm + ["ports", "name", "bundle_ports", "_t"]
     allb = nm + ["get", "props", "Roles", "roles", "signals", "name"]
-    return [mk_job("module", o, allm) for o in mods] + [mk_job("bundle", o, allb) for o in buns]
+    first = [mk_job("module", mods[0], allm), mk_job("module", mods[1], allm),
+             mk_job("bundle", [["set", "a", S], ["del", "signals"]], allb)]            # Bundle had no __delattr__ (fix C18-3)
+    return first + [mk_job("module", o, allm) for o in mods[2:]] + [mk_job("bundle", o, allb) for o in buns]
 
 
 def small_ops(ctr, names):
@@ -362,7 +364,7 @@ def run(run, tier, seed, replay=None):
     jj, oo, res, nf = evaluate("corpus", jobs)
     run.stream("corpus", len(jobs), sum(1 for j in jobs if nontrivial(j)), elaboration_failed=nf,
                rule="non-trivial = re-uses a name or contains a rejected form; pinned-tree witnesses and their neighbours")
-    report(run, "corpus", jj, oo, res, do_shrink=False)
+    report(run, "corpus", jj, oo, res, do_shrink=False, limit=3, keep_order=True)
     run.sample(dict(stream="corpus", case=jobs[0], impl_last_step=oo[0]["steps"][-1], export=oo[0].get("export")))
     total_traces += len(jobs)
 
